@@ -90,6 +90,11 @@ func (w *numWalk) valueOf(info *types.Info, env *numEnv, e ast.Expr) (numVal, bo
 		if x.Sel.Name == "Term" {
 			return numVal{origin: "Term"}, true
 		}
+		// a whole list handed to a helper (assigner.assignParams(f.Params)): ranging over the
+		// parameter it is bound to is ranging over the list
+		if numFields[x.Sel.Name] {
+			return numVal{origin: "list:" + x.Sel.Name}, true
+		}
 	case *ast.TypeAssertExpr:
 		if v, ok := w.valueOf(info, env, x.X); ok {
 			return v.with("assert"), true
@@ -184,6 +189,11 @@ func (w *numWalk) walkStmts(p *packages.Package, env *numEnv, list []ast.Stmt) {
 			field := ""
 			if se, ok := unparen(st.X).(*ast.SelectorExpr); ok && numFields[se.Sel.Name] {
 				field = se.Sel.Name
+			}
+			if id, ok := unparen(st.X).(*ast.Ident); ok {
+				if v, ok := env.vals[info.ObjectOf(id)]; ok && strings.HasPrefix(v.origin, "list:") {
+					field = strings.TrimPrefix(v.origin, "list:")
+				}
 			}
 			if field == "" {
 				w.walkStmts(p, env, st.Body.List)
